@@ -63,6 +63,7 @@ func (r *ring) PutOne(_ context.Context, m Completed) (chan RedisResult, error) 
 	n.c1.L.Lock()
 	for n.mark != 0 {
 		n.c1.Wait()
+		verifYield(nil, "ring.put.woken", n, m)
 	}
 	n.one = m
 	n.mark = 1
@@ -82,6 +83,7 @@ func (r *ring) PutMulti(_ context.Context, m []Completed, resps []RedisResult) (
 	n.c1.L.Lock()
 	for n.mark != 0 {
 		n.c1.Wait()
+		verifYield(nil, "ring.put.woken", n, verifFirst(m))
 	}
 	n.multi = m
 	n.resps = resps
